@@ -83,7 +83,7 @@ class Rule(MethodMeek):
     def info(self):
         "return an info string for the election report"
         name = "Warren" if self.warren else "Meek"
-        return "%s Parametric (omega = 1/10^%d)" % (name, self.omega10)
+        return "%s Parametric (omega = 1/10^%d)" % (name, int(self.omega10))  # (a string until count() converts it)
 
     def tag(self):
         "return a tag string for unit tests"
